@@ -3,6 +3,7 @@
    actual allocator calls is observed on the library by the instrumented-allocator run of this check. *)
 From Coq Require Import NArith List Bool.
 From AJ Require Import Model.Base Model.Pool Proofs.PoolProofs Model.Collection Proofs.CollProofs.
+From AJ Require Import Model.Value Model.JsonParse Model.MsgPack Proofs.ResourceBound.
 Local Open Scope N_scope.
 
 (* when no allocation fails — and also when some do — slots released by a removal are reused by later insertions
@@ -59,6 +60,20 @@ Theorem C06_removals_make_no_call : forall g s k,
   /\ snd (astep g s AClear) = O /\ snd (astep g s AShrink) = O.
 Proof. exact read_only_ops_make_no_call. Qed.
 Print Assumptions C06_removals_make_no_call.
+
+(* what a deserializer builds is linear in what it READ, for every input, filter, limit and outcome — whatever a header
+   announces (array 32 of 2^32-1 elements, str 32 of 4 GB): the document held after the call (also after an error)
+   needs at most one slot per byte consumed (slots: 1 per array element, 2 per object member) and at most one string
+   byte per byte consumed.  With the scratch string (at most one maximum-size string) this is the property's bound. *)
+Theorem C06_json_document_linear_in_bytes_read : forall cf f L i, let o := json_run cf f L i in
+  (slots (j_doc o) <= N.to_nat (reads (j_st o)))%nat /\ (str_bytes (j_doc o) <= N.to_nat (reads (j_st o)))%nat.
+Proof. exact json_doc_linear. Qed.
+Print Assumptions C06_json_document_linear_in_bytes_read.
+
+Theorem C06_msgpack_document_linear_in_bytes_read : forall cf f L i, let o := mp_run cf f L i in
+  (slots (mp_doc o) <= N.to_nat (m_reads (mp_rd o)))%nat /\ (str_bytes (mp_doc o) <= N.to_nat (m_reads (mp_rd o)))%nat.
+Proof. exact mp_doc_linear. Qed.
+Print Assumptions C06_msgpack_document_linear_in_bytes_read.
 
 Example C06_example : sp_wf (sp_add [97] (sp_add [98] (sp_add [97] []))) /\
                       sp_refs [97] (sp_add [97] (sp_add [98] (sp_add [97] []))) = 2.
